@@ -156,7 +156,10 @@ use self::im_set::HashSet;
 //@item solution/src/schedule.rs Schedule::tour_of : trusted
 //@retname r
 //@sig
-    ensures self.tours@.contains_key(vehicle) ==> r is Ok && *r->Ok_0 == self.tours@[vehicle],
+    ensures
+        self.tours@.contains_key(vehicle) ==> r is Ok && *r->Ok_0 == self.tours@[vehicle],
+        !self.tours@.contains_key(vehicle) && self.dummy_tours@.contains_key(vehicle) ==> r is Ok && *r->Ok_0 == self.dummy_tours@[vehicle],
+        !self.tours@.contains_key(vehicle) && !self.dummy_tours@.contains_key(vehicle) ==> r is Err,
 //@end
 
 // ---- schedule_dead_head_trip: verified in slice json_out (same contract text) -------------------------
